@@ -7,7 +7,7 @@ From Coq Require Import ZArith List Bool Lia.
 Import ListNotations.
 Require Import SV.Common SV.C10.Gen_tokens SV.C10.Listener SV.C10.Proc.
 Require Import SV.C10.ListenerProofs SV.C10.ProcProofs SV.C10.Automaton SV.C10.AutomatonProofs.
-Require Import SV.C10.ReadLog SV.C10.ReadLogProofs.
+Require Import SV.C10.ReadLog SV.C10.ReadLogProofs SV.C10.Pipes SV.C10.PipesProofs.
 Open Scope Z_scope.
 
 (* The interpretation of a listener's stdout depends only on the byte stream,
@@ -137,6 +137,30 @@ Theorem c10_contiguous :
   (p_iclosed p = false -> p_accepted p ++ p_ibuf p = concat (p_envs p)).
 Proof. exact contiguous. Qed.
 Print Assumptions c10_contiguous.
+
+(* supervisord's ends of a child's pipes are non-blocking (fact generated from
+   ServerOptions.make_pipes; the correspondence runs the real make_pipes and
+   checks the flags) ... *)
+Theorem c10_parent_pipe_ends_nonblocking :
+  PIPE_NONBLOCK_STDIN = true /\ PIPE_NONBLOCK_STDOUT = true /\ PIPE_NONBLOCK_STDERR = true.
+Proof. exact parent_ends_nonblocking. Qed.
+Print Assumptions c10_parent_pipe_ends_nonblocking.
+
+(* ... hence a write to a listener's stdin never makes the main loop sleep:
+   whatever room the pipe has, write(2) returns at once having taken a prefix
+   (all, a part, or nothing = EAGAIN) - the answers the model of flush
+   consumes - and flush keeps exactly the unsent rest (c10_contiguous goes on
+   from there).  A blocking descriptor could sleep (blocking_write_can_sleep). *)
+Theorem c10_write_never_blocks :
+  forall p room,
+  let len := zlen (p_ibuf p) in
+  exists w, wres_of (kernel_write PIPE_NONBLOCK_STDIN room len) = Some w /\
+            p_broken p = false ->
+            let '(p', r) := flush p w in
+            r = FOk /\ p_accepted p' ++ p_ibuf p' = p_accepted p ++ p_ibuf p /\
+            exists k, p_accepted p' = p_accepted p ++ k.
+Proof. exact write_never_blocks. Qed.
+Print Assumptions c10_write_never_blocks.
 
 (* frame: an operation on listener i leaves every other listener's record unchanged *)
 Theorem c10_no_cross_effect :
